@@ -155,6 +155,40 @@ def catoms(ctx, func, test, pol=True, inline_=True):
     return out
 
 
+def msearch(src, pattern, env=None, full=False):
+    """Search `pattern` in `src` (both without blanks); `$A`, `$B`, ... in
+    the pattern are metavariables that match one identifier each,
+    consistently.  Returns the binding dict (extended `env`) or None.
+    Used where a rule has to name a local variable of /repo: the rule names
+    its role, not what the code calls it."""
+    import re as _re
+    env = dict(env or {})
+    out, seen = [], set()
+    i = 0
+    pattern = pattern.replace(" ", "")
+    while i < len(pattern):
+        ch = pattern[i]
+        if ch == "$" and i + 1 < len(pattern) and pattern[i + 1].isupper():
+            v = pattern[i + 1]
+            if v in env:
+                out.append(_re.escape(env[v]))
+            elif v in seen:
+                out.append("(?P=%s)" % v)
+            else:
+                seen.add(v)
+                out.append(r"(?<![\w.])(?P<%s>[A-Za-z_]\w*)" % v)
+            i += 2
+        else:
+            out.append(_re.escape(ch))
+            i += 1
+    rx = "".join(out)
+    m = (_re.fullmatch if full else _re.search)(rx, src.replace(" ", ""))
+    if not m:
+        return None
+    env.update(m.groupdict())
+    return env
+
+
 def guarded_actions(ctx, func, stmts, base=frozenset()):
     """[(guard atoms, statement, value expr)] of the simple statements of a
     block: nested `if`s contribute their (canonical) atoms, a conditional
